@@ -3,6 +3,7 @@
 Require Import AT.Model.Base AT.Model.Rose AT.Model.Iter AT.Model.Nav AT.Spec.IterSpec AT.Spec.NavSpec.
 Require AT.Proofs.NavProofs AT.Proofs.CommonAnc AT.Proofs.AbsProofs AT.Model.Abs AT.Model.Heap AT.Spec.MutSpec.
 Import AT.Proofs.NavProofs.
+Require AT.Proofs.AbsConverse.
 
 (** path is the chain from the root down to the node (the upward walk never
     runs out of its fuel) *)
@@ -85,6 +86,24 @@ Theorem C04_parent_agree : forall h, AT.Spec.MutSpec.Inv h -> forall r p i m,
   exists q, AT.Proofs.AbsProofs.node_at h r p = Some q /\ AT.Model.Heap.parent h m = Some q.
 Proof. exact AT.Proofs.AbsProofs.parent_agree. Qed.
 Print Assumptions C04_parent_agree.
+
+(** the converse bridge: whenever the children lists below a node spell out a
+    tree t - every node of t has, in the link state, exactly the labels of its
+    children in t, in order - the unfolding returns t itself (no consistency
+    assumption needed).  This is the premise the correspondence harnesses check
+    on the live objects before the read-only queries run (the snapshot of the
+    links equals the links of the requested tree), so the trees of C04-C09,
+    C14, C15 are the unfoldings of the link states of C01-C03 *)
+Theorem C04_unfolding_of_spelled_links : forall (h : AT.Model.Heap.heap) t,
+  theight t <= length h -> AT.Proofs.AbsConverse.spells h t ->
+  AT.Model.Abs.tree_of h (label t) = t.
+Proof. exact AT.Proofs.AbsConverse.tree_of_spelled. Qed.
+Print Assumptions C04_unfolding_of_spelled_links.
+
+Example C04_spelled_example :
+  let h := AT.Model.Heap.attach_links (AT.Model.Heap.attach_links (AT.Model.Heap.attach_links (AT.Model.Heap.init 4) 1 0) 3 0) 2 1 in
+  AT.Model.Abs.tree_of h 0 = T 0 [T 1 [T 2 []]; T 3 []].
+Proof. vm_compute. reflexivity. Qed.
 
 Example C04_example :
   let t := T 0 [T 1 [T 2 []; T 3 []]; T 4 [T 5 []]] in
